@@ -24,6 +24,9 @@ func Gen(prop string, r *sim.Rand, tier string) sim.Script {
 	if r.Chance(1, 250) {
 		return genBigBlock(prop, r)
 	}
+	if r.Chance(1, 25) {
+		return genDeep(prop, r)
+	}
 	key := func() string { return fmt.Sprintf("k%d", r.Intn(nKeys)) }
 	nb, nt, nv := 0, 0, 0
 	var openBlocks []int // uncommitted
@@ -166,41 +169,128 @@ func genLong(prop string, r *sim.Rand) sim.Script {
 	return s
 }
 
+// genDeep: a deep chain on which keys are written or removed only now and then, so that lookups walk
+// dozens of links back (to values and to tombstones), repeated at the same block and at its descendants,
+// through the state cache, query caches, block caches and transaction caches.
+func genDeep(prop string, r *sim.Rand) sim.Script {
+	s := &Script{Prop: prop, Values: "bytes"}
+	if prop == "C07" && r.Chance(1, 2) {
+		s.Values = "nodes"
+	}
+	n := 22 + r.Intn(40)
+	if r.Chance(1, 5) {
+		n = 60 + r.Intn(130)
+	}
+	nKeys := 1 + r.Intn(3)
+	key := func() string { return fmt.Sprintf("k%d", r.Intn(nKeys)) }
+	every := 8 + r.Intn(40) // a key changes about once in this many blocks
+	nv, nt := 0, 0
+	look := func(b int) {
+		k := key()
+		for i := 1 + r.Intn(3); i > 0; i-- {
+			switch r.Intn(4) {
+			case 0:
+				s.Ops = append(s.Ops, Op{K: "sget", B: b, Y: k})
+			case 1:
+				s.Ops = append(s.Ops, Op{K: "qget", B: b, Y: k})
+			case 2:
+				s.Ops = append(s.Ops, Op{K: "qtxn", B: b}, Op{K: "tget", T: nt, Y: k})
+				nt++
+			case 3:
+				s.Ops = append(s.Ops, Op{K: "bget", B: b, Y: k})
+			}
+		}
+	}
+	for b := 0; b < n; b++ {
+		s.Ops = append(s.Ops, Op{K: "blk", P: b - 1})
+		if b == 0 || r.Chance(1, every) {
+			for c := 1 + r.Intn(2); c > 0; c-- {
+				k := key()
+				switch r.Intn(5) {
+				case 0:
+					nv++
+					s.Ops = append(s.Ops, Op{K: "bset", B: b, Y: k, V: fmt.Sprintf("v%d", nv)})
+				case 1, 2:
+					nv++
+					s.Ops = append(s.Ops, Op{K: "txn", B: b}, Op{K: "tset", T: nt, Y: k, V: fmt.Sprintf("v%d", nv)}, Op{K: "tcommit", T: nt})
+					nt++
+				case 3:
+					s.Ops = append(s.Ops, Op{K: "txn", B: b}, Op{K: "trem", T: nt, Y: k}, Op{K: "tcommit", T: nt})
+					nt++
+				case 4:
+					nv++
+					s.Ops = append(s.Ops, Op{K: "txn", B: b}, Op{K: "tset", T: nt, Y: k, V: fmt.Sprintf("v%d", nv)}, Op{K: "trem", T: nt, Y: k}, Op{K: "tcommit", T: nt})
+					nt++
+				}
+			}
+		}
+		if r.Chance(1, 6) {
+			look(b) // through the uncommitted block
+		}
+		s.Ops = append(s.Ops, Op{K: "bcommit", B: b})
+		if r.Chance(1, 5) {
+			look(b)
+		}
+		if b > 0 && r.Chance(1, 10) {
+			look(r.Intn(b))
+		}
+	}
+	for i := 0; i < 6; i++ {
+		look(n - 1 - r.Intn(3))
+	}
+	return s
+}
+
 // GenSched generates a C08 script: a block tree prepared sequentially (every
 // block writes at most one key, so no map iteration order is observable), then
 // 2-5 tasks (committers and readers) for the seeded scheduler.
 func GenSched(r *sim.Rand, tier string) sim.Script {
 	s := &Script{Prop: "C08", Values: "bytes"}
 	nKeys := 1 + r.Intn(3)
-	nb := 3 + r.Intn(5)
 	nv := 0
-	parent := make([]int, nb)
-	for b := 0; b < nb; b++ {
-		p := b - 1
-		if b > 1 && r.Chance(1, 4) {
-			p = r.Intn(b) // fork
+	// hot-key prefix: a committed chain in which every block wrote k0, as long as the per-key version table
+	// (200 entries) so that the table is full when the concurrent phase starts. All lookups of the concurrent
+	// phase are at blocks near the tip, whose versions are the most recent ones of the table.
+	base := 0
+	if r.Chance(1, 12) {
+		base = 200 + r.Intn(16)
+		for b := 0; b < base; b++ {
+			nv++
+			s.Ops = append(s.Ops, Op{K: "blk", P: b - 1}, Op{K: "bset", B: b, Y: "k0", V: fmt.Sprintf("v%d", nv)}, Op{K: "bcommit", B: b})
 		}
-		parent[b] = p
+	}
+	near := func(n int) int { // a block of the concurrent part, or one of the last blocks of the prefix
+		if base > 0 && r.Chance(1, 4) {
+			return base - 1 - r.Intn(3)
+		}
+		return base + r.Intn(n)
+	}
+	nb := 3 + r.Intn(5)
+	for b := 0; b < nb; b++ {
+		p := base + b - 1
+		if b > 1 && r.Chance(1, 4) {
+			p = base + r.Intn(b) // fork
+		}
 		s.Ops = append(s.Ops, Op{K: "blk", P: p})
 		if r.Chance(2, 3) {
 			nv++
-			s.Ops = append(s.Ops, Op{K: "bset", B: b, Y: fmt.Sprintf("k%d", r.Intn(nKeys)), V: fmt.Sprintf("v%d", nv)})
+			s.Ops = append(s.Ops, Op{K: "bset", B: base + b, Y: fmt.Sprintf("k%d", r.Intn(nKeys)), V: fmt.Sprintf("v%d", nv)})
 		}
 	}
 	// commit a prefix sequentially
 	pre := r.Intn(nb)
 	for b := 0; b < pre; b++ {
-		s.Ops = append(s.Ops, Op{K: "bcommit", B: b})
+		s.Ops = append(s.Ops, Op{K: "bcommit", B: base + b})
 	}
 	if pre > 0 && r.Chance(1, 3) {
 		// warm-up reads (memoisation happened before the concurrent phase)
 		for i := 0; i < 1+r.Intn(3); i++ {
-			s.Ops = append(s.Ops, Op{K: "sget", B: r.Intn(pre), Y: fmt.Sprintf("k%d", r.Intn(nKeys))})
+			s.Ops = append(s.Ops, Op{K: "sget", B: base + r.Intn(pre), Y: fmt.Sprintf("k%d", r.Intn(nKeys))})
 		}
 	}
 	var uncommitted []int
 	for b := pre; b < nb; b++ {
-		uncommitted = append(uncommitted, b)
+		uncommitted = append(uncommitted, base+b)
 	}
 	nTasks := 2 + r.Intn(4)
 	nCommitters := 1 + r.Intn(2)
@@ -222,12 +312,12 @@ func GenSched(r *sim.Rand, tier string) sim.Script {
 				}
 			}
 			if r.Chance(1, 2) {
-				ops = append(ops, Op{K: "sget", B: r.Intn(nb), Y: fmt.Sprintf("k%d", r.Intn(nKeys))})
+				ops = append(ops, Op{K: "sget", B: near(nb), Y: fmt.Sprintf("k%d", r.Intn(nKeys))})
 			}
 		} else {
 			for c := 1 + r.Intn(5); c > 0; c-- {
 				k := []string{"sget", "sget", "qget", "bget", "sget", "qget", "bget", "bgetc"}[r.Intn(8)]
-				ops = append(ops, Op{K: k, B: r.Intn(nb), Y: fmt.Sprintf("k%d", r.Intn(nKeys))})
+				ops = append(ops, Op{K: k, B: near(nb), Y: fmt.Sprintf("k%d", r.Intn(nKeys))})
 			}
 		}
 		s.Tasks = append(s.Tasks, ops)
@@ -242,7 +332,9 @@ func GenSched(r *sim.Rand, tier string) sim.Script {
 // big block must still win over the parent's versions.
 func genBigBlock(prop string, r *sim.Rand) sim.Script {
 	s := &Script{Prop: prop, Values: "bytes"}
-	m := []int{300, 3000, 12000, 40000, 110000}[r.Intn(5)]
+	// below the key capacity of the state cache (100*1024): beyond it, which keys an overfull commit evicts follows the
+	// iteration order of a Go map inside the code under test, and such a run would not be a function of its script
+	m := []int{300, 3000, 12000, 40000, 100000}[r.Intn(5)]
 	nv := 0
 	val := func() string { nv++; return fmt.Sprintf("v%d", nv) }
 	s.Ops = append(s.Ops, Op{K: "blk", P: -1})
